@@ -5,14 +5,24 @@ A case = (statement, pool of 1..3 feeds).  Every feed is a real `io.Feed` subcla
 configured `setup.Feed` descriptors with a priority work as well as explicit instances) advertising an arbitrary set
 of DSL sources: tables, references, joins, sets, sub-queries of the statement, near misses of those, unrelated ones.
 
+The lazily configured feeds of a pool are hand-made descriptor tuples (route `direct`, as forml's tests do), or - the way
+the platform builds a pool - `[FEED.<ref>]` sections of the configuration (own `priority` option absent / 0 / negative / whole
+/ float / ties, generic options, a `params = {...}` sub-table with arbitrary option names incl. `priority`, `provider`,
+`params`, malformed sections) resolved by `setup.Feed(ref)` each (route `single`; or handed over as the bare reference string)
+or all at once by `setup.Feed.resolve([refs])` (route `multi`), mixed with explicit instances.
+
 implementation  `io.Importer(*feeds).match(statement)`; per feed the single-feed importer (does its matcher accept?) and
                 the feed's own parser on the statement (`Feed.Reader.parser(sources, features)` + `accept` + `fetch`):
-                `ok` / `UnprovisionedError` / any other exception
-model           `(c09 statement pool)` -> selected index, covers per feed, resolves per feed
+                `ok` (+ the source skeleton of what the tuple parser built) / `UnprovisionedError` / any other exception;
+                per section the resolved descriptor and the keyword arguments the feed constructor received
+model           `(c09 statement pool)` -> selected index, covers per feed, skeleton verdict per feed, the parser machine's
+                result per feed;  `(c09conf statement members route)` -> selection from the pool built from the configuration,
+                descriptor per section;  `(c09seq statements pool)` -> answers of one importer to a request history
 oracle          the property text on ASTs (independent of the model): coverage = every table read is advertised or lies
                 under an advertised sub-statement; the returned feed covers and no covering feed has a higher priority;
                 MissingError iff nobody covers; the selected feed's parser does not report an unprovisioned source; a
-                feed that does not cover does not parse.
+                feed that does not cover does not parse.  "Priority" is the CONFIGURED priority (the section's own option),
+                never what forml made of it.
 """
 from __future__ import annotations
 
@@ -26,10 +36,15 @@ from . import dslgen as g
 
 NONTABLE = ('ref', 'join', 'set', 'query')
 ALIAS = 'verif-c09-double'
-ALIAS_SQL = 'verif-c09-alchemy'
+ALIAS_SQL = 'verif-c09-double-sql'
+#: provider references of the feed doubles (several, so that `setup.Feed.resolve` has references to order equal priorities by)
+ALIASES = (ALIAS, 'verif-c09-alt', 'verif-c09-zed')
+ALIASES_SQL = tuple(a + '-sql' for a in ALIASES)  # the same relative order
+RESERVED = ('priority', 'provider', 'params')
 
 #: what the feed doubles advertise: feed key -> {dsl source object: parser-native stand-in}
 _ADVERTISED: dict = {}
+_ORDER: dict = {}
 _CACHE: dict = {}
 
 
@@ -150,34 +165,42 @@ def _doubles():
             def read(cls, statement, **kwargs):
                 raise NotImplementedError
 
-        def __init__(self, key: int):
+        def __init__(self, key: int, **options):
             super().__init__()
             self.key = key
+            self.options = options  # whatever else the configuration section hands to the constructor
 
         @property
         def sources(self):
             return _ADVERTISED[self.key]
+
+    for extra in ALIASES[1:]:
+        type('Double_' + extra.replace('-', '_'), (Double,), {}, alias=extra)
 
     class DoubleSql(io.Feed, alias=ALIAS_SQL):
         """The same with the SQLAlchemy reader shipped with forml."""
 
         Reader = alchemy.Reader
 
-        def __init__(self, key: int):
+        def __init__(self, key: int, **options):
             super().__init__()
             self.key = key
+            self.options = options
 
         @property
         def sources(self):
             return _ADVERTISED[self.key]
 
-    class Conf(setup.Feed):
+    for extra in ALIASES_SQL[1:]:
+        type('DoubleSql_' + extra.replace('-', '_'), (DoubleSql,), {}, alias=extra)
+
+    class Direct(setup.Feed):
         """A `[FEED.x]` descriptor without a config file (as tests/io/_input/test_input.py does)."""
 
         def __new__(cls, reference: str, priority: float, key: int):
             return tuple.__new__(cls, [reference, float(priority), {'key': key}])
 
-    _CACHE['cls'] = (Double, DoubleSql, Conf)
+    _CACHE['cls'] = (Double, DoubleSql, Direct)
     return _CACHE['cls']
 
 
@@ -189,88 +212,250 @@ def _native(i: int, ast, sql: bool):
     return sqlalchemy.table(ast[1].lower() if ast[0] == 'table' else f'denorm{i}')
 
 
+class Conf(typing.NamedTuple):
+    """How the `[FEED.<ref>]` section of a lazily configured member is written (routes `single` / `multi`).  The
+    configured priority itself is the member's `priority2`."""
+
+    form: str = 'int'  # the section's own `priority` option: 'absent' (only for 0) | 'int' (only for whole numbers) | 'float'
+    top: tuple = ()  # ((name, value), ...) generic options at the section's top level
+    params: typing.Optional[tuple] = None  # ((name, value), ...) the `params = {...}` sub-table; None = no sub-table
+    keyat: str = 'top'  # where the double's constructor argument `key` is given: 'top' | 'params' | 'both' (a decoy on top)
+    provider: int = 0  # index into ALIASES
+    named: bool = False  # no `provider` option: the section is named after the provider
+    broken: typing.Optional[str] = None  # malformed stream: 'priority-text' | 'priority-table' | 'params-num' | 'params-text' | 'missing'
+    given: str = 'descriptor'  # what io.Importer is handed: the resolved `setup.Feed` | 'reference' = the section's name (a str)
+
+
+PLAIN = Conf()
+
+
 class Case(typing.NamedTuple):
     statement: tuple  # AST
-    pool: tuple  # ((priority | None, (advertised AST, ...)), ...)   None = explicit instance; priority in halves
+    pool: tuple  # ((priority | None, (advertised AST, ...)[, Conf]), ...)   None = explicit instance; priority in halves
     before: tuple = ()  # statements the SAME importer instance was asked before (request history)
+    route: str = 'direct'  # how the lazily configured members become descriptors: 'direct' (tuples built by hand, as forml's
+    #                        tests do) | 'single' (`setup.Feed(ref)` per [FEED.ref] section) | 'multi' (`setup.Feed.resolve([refs])`)
+
+
+def member(m) -> tuple:
+    """(priority2 | None, advertised, Conf)"""
+    return m[0], m[1], (m[2] if len(m) > 2 and m[2] is not None else PLAIN)
+
+
+def conf_json(conf: Conf) -> dict:
+    out = {'priority_written_as': conf.form, 'options': [list(kv) for kv in conf.top],
+           'params': None if conf.params is None else [list(kv) for kv in conf.params], 'key_given_in': conf.keyat,
+           'provider': ALIASES[conf.provider], 'section_named_after_provider': conf.named}
+    if conf.broken:
+        out['malformed'] = conf.broken
+    if conf.given != 'descriptor':
+        out['handed_to_importer_as'] = 'reference string'
+    return out
+
+
+def conf_from_json(w: dict) -> Conf:
+    return Conf(w['priority_written_as'], tuple(tuple(kv) for kv in w['options']),
+                None if w['params'] is None else tuple(tuple(kv) for kv in w['params']), w['key_given_in'],
+                ALIASES.index(w['provider']), w['section_named_after_provider'], w.get('malformed'),
+                'reference' if w.get('handed_to_importer_as') == 'reference string' else 'descriptor')
 
 
 def case_json(case: Case) -> dict:
-    out = {'statement': listify(case.statement),
-           'pool': [{'priority2': p, 'advertised': [listify(a) for a in adv]} for p, adv in case.pool]}
+    pool = []
+    for m in case.pool:
+        p, adv, conf = member(m)
+        feed = {'priority2': p, 'advertised': [listify(a) for a in adv]}
+        if case.route != 'direct' and p is not None:
+            feed['section'] = conf_json(conf)
+        pool.append(feed)
+    out = {'statement': listify(case.statement), 'pool': pool}
+    if case.route != 'direct':
+        out['descriptors_resolved_by'] = {'single': 'setup.Feed(ref)', 'multi': 'setup.Feed.resolve([refs])'}[case.route]
     if case.before:
         out['asked_before_on_the_same_importer'] = [listify(b) for b in case.before]
     return out
 
 
 def case_from_json(w: dict) -> Case:
-    return Case(tuplify(w['statement']), tuple((f['priority2'], tuple(tuplify(a) for a in f['advertised'])) for f in w['pool']),
-                tuple(tuplify(b) for b in w.get('asked_before_on_the_same_importer', ())))
+    route = {None: 'direct', 'setup.Feed(ref)': 'single', 'setup.Feed.resolve([refs])': 'multi'}[w.get('descriptors_resolved_by')]
+    pool = []
+    for f in w['pool']:
+        m = (f['priority2'], tuple(tuplify(a) for a in f['advertised']))
+        if 'section' in f:
+            m += (conf_from_json(f['section']),)
+        pool.append(m)
+    return Case(tuplify(w['statement']), tuple(pool), tuple(tuplify(b) for b in w.get('asked_before_on_the_same_importer', ())),
+                route)
+
+
+def priority_value(conf: Conf, prio2: int):
+    """the number written as the section's own `priority` option"""
+    return prio2 / 2 if conf.form == 'float' or prio2 % 2 else prio2 // 2
+
+
+def build_section(conf: Conf, prio2: int, key: int, decoy: int, aliases: tuple, taken: set):
+    """(reference, the `[FEED.<reference>]` section as the TOML parser would deliver it | None = there is no such section)"""
+    ref = f'c09-{key}'
+    sec: dict = {}
+    if conf.named and aliases[conf.provider] not in taken:
+        ref = aliases[conf.provider]
+    else:
+        sec['provider'] = aliases[conf.provider]
+    taken.add(ref)
+    if conf.broken == 'missing':
+        return ref, None
+    if conf.broken == 'priority-text':
+        sec['priority'] = 'high'
+    elif conf.broken == 'priority-table':
+        sec['priority'] = {'level': priority_value(conf, prio2)}
+    elif not (conf.form == 'absent' and prio2 == 0):
+        sec['priority'] = priority_value(conf, prio2)
+    sec.update(conf.top)
+    params = None if conf.params is None else dict(conf.params)
+    if params is None or conf.keyat == 'top':
+        sec['key'] = key
+    else:
+        params['key'] = key
+        if conf.keyat == 'both':
+            sec['key'] = decoy
+    if conf.broken == 'params-num':
+        sec['params'] = 5
+    elif conf.broken == 'params-text':
+        sec['params'] = 'xy'
+    elif params is not None:
+        sec['params'] = params
+    return ref, sec
+
+
+def expected_kwargs(sec: dict) -> dict:
+    """The documentation of `setup.Section`: generic options are the section's options the config parser does not know,
+    `params = {...}` is the collision-free way of giving them (so it wins, and may use any name)."""
+    out = {k: v for k, v in sec.items() if k not in RESERVED}
+    out.update(sec.get('params', {}))
+    return out
+
+
+def halves(x):
+    """a parsed priority in halves (int) - or the float itself when it is not a multiple of 0.5"""
+    try:
+        return int(x * 2) if float(x * 2).is_integer() else ('float', repr(x))
+    except (TypeError, ValueError, OverflowError):
+        return ('not-a-number', repr(x))
 
 
 class Observed(typing.NamedTuple):
     statement: tuple  # AST read back from the real statement
     pool: tuple  # ((priority2 | None, frozenset of ASTs read back from the real advertised sources), ...)
-    selected: typing.Any  # index | None (MissingError) | ('error', class)
+    selected: typing.Any  # index | None (MissingError) | ('error', class) | ('pool-error', class)
     stable: bool  # a second match() returned the same feed
     identity: bool  # an explicit instance is returned as that very object
     covers: tuple  # per feed: True / False / ('error', class)   (single-feed importer)
     parses: tuple  # per feed: 'ok' | 'unprovisioned' | 'other:<class>'
     earlier: int = 0  # number of requests the importer instance had answered before this one
+    sections: tuple = ()  # per feed: None (instance / direct descriptor) | (reference, section dict | None)
+    descriptors: tuple = ()  # per feed: None | (provider reference, priority in halves, params dict) | ('error', class)
+    kwargs: tuple = ()  # per feed: None | what the feed constructor received | ('error', class)
+    wellformed: bool = True  # every section is there, its priority is a number, its params a table
+    skeletons: tuple = ()  # per feed: the source skeleton of what the tuple parser built (None: no result / SQLAlchemy parser)
+    byname: tuple = ()  # per feed: io.Importer was handed the section's reference string
 
 
-def observe(case: Case, sql: bool = False, split_builders: bool = False, via_config: bool = False) -> Observed:
+def observe(case: Case, sql: bool = False, split_builders: bool = False) -> Observed:
     """The real code's answer to `case.statement` (after `case.before` on the same importer instance)."""
-    return observe_all(case, sql, split_builders, via_config)[-1]
+    return observe_all(case, sql, split_builders)[-1]
 
 
-def observe_all(case: Case, sql: bool = False, split_builders: bool = False, via_config: bool = False) -> list:
+def observe_all(case: Case, sql: bool = False, split_builders: bool = False) -> list:
     """Run the real code on one case: ONE `io.Importer` instance answers `case.before + (case.statement,)` in that
-    order; one `Observed` per request.  `via_config`: the lazily configured feeds are `[FEED.<ref>]` sections of the
-    platform configuration resolved by `setup.Feed(<ref>)` (provider, priority - omitted when 0 -, params), otherwise the
-    descriptor tuples are built directly."""
+    order; one `Observed` per request.  Routes `single` / `multi`: the lazily configured feeds are `[FEED.<ref>]`
+    sections of the platform configuration (provider, priority, generic options, a `params` sub-table) resolved by
+    `setup.Feed(<ref>)` each, or all at once by `setup.Feed.resolve([<ref>, ...])` and handed to the importer behind the
+    explicit instances; route `direct`: the descriptor tuples are built by hand."""
     import forml
     from forml import io, setup
     from forml.io import dsl
     from forml.setup import _conf
 
-    Double, DoubleSql, Conf = _doubles()
-    cls, alias = (DoubleSql, ALIAS_SQL) if sql else (Double, ALIAS)
+    Double, DoubleSql, Direct = _doubles()
+    cls, aliases = (DoubleSql, ALIASES_SQL) if sql else (Double, ALIASES)
     b1 = g.Builder()
     b2 = g.Builder() if split_builders else b1
     base = _CACHE['key'] = _CACHE.get('key', 0) + 16
-    keys = [base + i for i in range(len(case.pool))]
+    pool = [member(m) for m in case.pool]
+    keys = [base + i for i in range(len(pool))]
     saved = _conf.CONFIG.get(setup.Feed.GROUP)
     try:
-        slots, explicit, readback = [], {}, []
-        if via_config:
-            sections = dict(saved or {})
-            for i, (prio, _) in enumerate(case.pool):
-                if prio is not None:
-                    section = {'provider': alias, 'key': keys[i]}
-                    if prio != 0:
-                        section['priority'] = prio / 2 if prio % 2 else prio // 2
-                    sections[f'c09-{keys[i]}'] = section
-            dict.__setitem__(_conf.CONFIG, setup.Feed.GROUP, sections)
-        for i, (prio, adv) in enumerate(case.pool):
+        explicit, readback = {}, []
+        sections: list = [None] * len(pool)
+        descriptors: list = [None] * len(pool)
+        byname = tuple(case.route == 'single' and prio is not None and conf.given == 'reference' for prio, _, conf in pool)
+        wellformed = True
+        for i, (prio, adv, conf) in enumerate(pool):
             mapping = {}
             for j, a in enumerate(adv):
                 mapping[b2.build(a)] = _native(j, a, sql)
             _ADVERTISED[keys[i]] = mapping
-            readback.append((prio, frozenset(g.to_ast(o) for o in mapping)))
+            _ORDER[keys[i]] = [g.to_ast(o) for o in mapping]  # read back from the real objects, in mapping order
+            readback.append((prio, frozenset(_ORDER[keys[i]])))
             if prio is None:
                 explicit[i] = cls(key=keys[i])
-                slots.append(explicit[i])
-            elif via_config:
-                slots.append(setup.Feed(f'c09-{keys[i]}'))
-            else:
-                slots.append(Conf(alias, prio / 2, keys[i]))
-        importer = io.Importer(*slots)
+        pool_error = None
+        if case.route == 'direct':
+            slots = [explicit[i] if prio is None else Direct(aliases[0], prio / 2, keys[i]) for i, (prio, _, _) in enumerate(pool)]
+        else:
+            group, taken = dict(saved or {}), set()
+            for i, (prio, _, conf) in enumerate(pool):
+                if prio is not None:
+                    decoy = keys[(i + 1) % len(keys)] if len(keys) > 1 else keys[i] + 7
+                    sections[i] = build_section(conf, prio, keys[i], decoy, aliases, taken)
+                    wellformed = wellformed and conf.broken is None
+                    if sections[i][1] is not None:
+                        group[sections[i][0]] = sections[i][1]
+            dict.__setitem__(_conf.CONFIG, setup.Feed.GROUP, group)
+            for i, sec in enumerate(sections):
+                if sec is not None:
+                    try:
+                        d = setup.Feed(sec[0])
+                        descriptors[i] = (str(d.reference), halves(d.priority), dict(d.params))
+                    except Exception as err:  # pylint: disable=broad-except
+                        descriptors[i] = ('error', type(err).__name__)
+            try:
+                if case.route == 'single':
+                    slots = [explicit[i] if sec is None else sec[0] if byname[i] else setup.Feed(sec[0])
+                             for i, sec in enumerate(sections)]
+                else:
+                    refs = [sec[0] for sec in sections if sec is not None]  # (no reference at all would mean "the default feeds")
+                    resolved = setup.Feed.resolve(refs) if refs else ()
+                    slots = [explicit[i] for i in sorted(explicit)] + list(resolved)
+            except Exception as err:  # pylint: disable=broad-except
+                pool_error, slots = type(err).__name__, None
         out = []
+        extra = {'sections': tuple(sections), 'descriptors': tuple(descriptors), 'wellformed': wellformed, 'byname': byname}
+        importer = None
+        if slots is not None:
+            try:
+                importer = io.Importer(*slots)  # a reference string is resolved in here (`Slot.__init__`)
+            except Exception as err:  # pylint: disable=broad-except
+                pool_error = type(err).__name__
+        if importer is None:
+            for earlier, ast in enumerate(case.before + (case.statement,)):
+                out.append(Observed(g.to_ast(b1.build(ast)), tuple(readback), ('pool-error', pool_error), True, True,
+                                    (), (), earlier, kwargs=(None,) * len(pool), **extra))
+            return out
         for earlier, ast in enumerate(case.before + (case.statement,)):
             stmt = b1.build(ast)  # rebuilt for every request: a repeated statement is an equal, not the identical object
             out.append(_request(importer, stmt, keys, explicit, cls, tuple(readback), earlier))
-        return out
+        kwargs: list = [None] * len(pool)
+        if case.route != 'direct':
+            try:
+                for feed in importer:  # `Slot.instance`: every lazily configured feed is constructed from its descriptor
+                    i = keys.index(feed.key)
+                    if sections[i] is not None:
+                        kwargs[i] = {'key': feed.key, **feed.options}
+            except Exception as err:  # pylint: disable=broad-except
+                kwargs = [None if sec is None else (k if k is not None else ('error', type(err).__name__))
+                          for sec, k in zip(sections, kwargs)]
+        return [o._replace(kwargs=tuple(kwargs), **extra) for o in out]
     finally:
         if saved is None:
             dict.pop(_conf.CONFIG, setup.Feed.GROUP, None)
@@ -278,6 +463,24 @@ def observe_all(case: Case, sql: bool = False, split_builders: bool = False, via
             dict.__setitem__(_conf.CONFIG, setup.Feed.GROUP, saved)
         for k in keys:
             _ADVERTISED.pop(k, None)
+            _ORDER.pop(k, None)
+
+
+def skeleton(symbol, natives: list):
+    """Source skeleton of the tuple parser's output: which advertised source every leaf was resolved to, references,
+    joins, sets, queries (nothing of the features)."""
+    tag = symbol[0]
+    if tag == 'native':
+        return ('native', natives[symbol[1]])
+    if tag == 'ref':
+        return ('ref', skeleton(symbol[1], natives), symbol[2])
+    if tag == 'join':
+        return ('join', skeleton(symbol[1], natives), skeleton(symbol[2], natives), symbol[4])
+    if tag == 'set':
+        return ('set', skeleton(symbol[1], natives), skeleton(symbol[2], natives), symbol[3])
+    if tag == 'query':
+        return ('query', skeleton(symbol[1], natives))
+    raise ValueError(f'not a source symbol: {symbol!r}')
 
 
 def _request(importer, stmt, keys, explicit, cls, readback, earlier) -> Observed:
@@ -297,9 +500,10 @@ def _request(importer, stmt, keys, explicit, cls, readback, earlier) -> Observed
         selected = None if type(err) is forml.MissingError else ('error', type(err).__name__)
     except Exception as err:  # pylint: disable=broad-except
         selected = ('error', type(err).__name__)
-    covers, parses = [], []
+    covers, parses, skeletons = [], [], []
     for i in range(len(keys)):
         feed = cls(key=keys[i])
+        skeletons.append(None)
         try:
             covers.append(io.Importer(feed).match(stmt) is feed)
         except forml.MissingError as err:
@@ -309,13 +513,16 @@ def _request(importer, stmt, keys, explicit, cls, readback, earlier) -> Observed
         try:
             with feed.Reader.parser(feed.sources, feed.features) as visitor:
                 stmt.accept(visitor)
-                visitor.fetch()
+                result = visitor.fetch()
             parses.append('ok')
+            if isinstance(result, tuple):  # the tuple parser
+                skeletons[i] = skeleton(result, _ORDER[keys[i]])
         except dsl.UnprovisionedError:
             parses.append('unprovisioned')
         except Exception as err:  # pylint: disable=broad-except
             parses.append(f'other:{type(err).__name__}')
-    return Observed(g.to_ast(stmt), readback, selected, stable, identity, tuple(covers), tuple(parses), earlier)
+    return Observed(g.to_ast(stmt), readback, selected, stable, identity, tuple(covers), tuple(parses), earlier,
+                    skeletons=tuple(skeletons))
 
 
 def oracle(obs: Observed) -> list:
@@ -326,7 +533,16 @@ def oracle(obs: Observed) -> list:
     cov = [spec_covers(adv, s) for _, adv in obs.pool]
     rank = [float('inf') if p is None else p for p, _ in obs.pool]
     sel = obs.selected
-    if isinstance(sel, tuple):
+    if isinstance(sel, tuple) and sel[0] == 'pool-error':
+        # no importer: the property has nothing to say unless the configuration is well formed
+        if obs.wellformed:
+            return [(f'the pool cannot be built from a well-formed configuration: {sel[1]}', 'pool-construction-raises-' + sel[1])]
+        return []
+    if isinstance(sel, tuple) and sel[1] == 'AttributeError' and any(obs.byname):
+        i = obs.byname.index(True)
+        out.append((f'Importer.match raised AttributeError: feed {i} of {n} was given to io.Importer by its reference string, '
+                    'which is not resolved to the configured descriptor', 'pool-member-given-by-reference-string-not-resolved'))
+    elif isinstance(sel, tuple):
         out.append((f'Importer.match raised {sel[1]}', 'match-raises-' + sel[1]))
     elif sel is None:
         if any(cov):
@@ -404,7 +620,42 @@ CORPUS = [
 ]
 
 
+_AB = (A, B)
+CORPUS += [
+    # the platform's way: [FEED.x] sections; an option called `priority` inside `params` is the feed's own business
+    Case(_QJ, ((2, _AB, Conf('int', (), (('priority', 100),), 'params')), (20, _AB, Conf('int', (), (('region', 'eu'),), 'top'))), (), 'single'),
+    Case(_QJ, ((0, _AB, Conf('absent', (), (('priority', 100),), 'both')), (20, _AB, PLAIN)), (), 'single'),
+    Case(_QJ, ((20, _AB, Conf('float', (('region', 'eu'),), (('priority', -100), ('region', 'us')), 'top')), (2, _AB, PLAIN)), (), 'multi'),
+    Case(_QJ, ((5, _AB, Conf('float', (), (('provider', 'elsewhere'), ('params', 3)), 'params', 1)), (None, (A,)), (5, _AB, Conf('float', (), None, 'top', 0))), (), 'multi'),
+    Case(_QJ, ((-3, _AB, Conf('float')), (0, _AB, Conf('absent')), (-4, _AB, Conf('int'))), (), 'single'),
+    Case(_QJ, ((4, _AB, Conf('int', named=True)), (4, _AB, Conf('float', provider=2)), (4, _AB, Conf('int', provider=1))), (), 'multi'),
+    Case(_QA, ((2, (A,), Conf(broken='priority-text')), (2, (A,))), (), 'single'),
+    Case(_QA, ((2, (A,)), (2, (A,), Conf(broken='missing'))), (), 'multi'),
+    Case(_QA, ((2, (A,), Conf(broken='params-num')), (2, (A,), Conf(broken='priority-table'))), (), 'single'),
+    Case(_QA, ((2, (A,), Conf(broken='params-text')),), (), 'single'),
+    # a member given by its reference string
+    Case(_QA, ((2, (A,), Conf(given='reference')),), (), 'single'),
+    Case(_QA, ((None, (A,)), (2, (A,), Conf(given='reference'))), (), 'single'),
+    Case(_QA, ((8, (A,)), (2, (), Conf(given='reference')), (None, (B,))), (), 'single'),
+    Case(_QA, ((8, (A,)), (2, (A,), Conf(given='reference', broken='missing'))), (), 'single'),
+]
+
 _QB = ('query', B, (('elem', B, 'name'),), None, (), None, (), None)
+_QSET = ('query', ('set', _QA, _QB, 'union'), (('elem', A, 'name'),), None, (), None, (), None)
+_QQA = ('query', _QA, (('elem', A, 'name'),), None, (), None, (), None)
+_RQB = ('ref', _QB, 'q')
+CORPUS += [
+    # statements the DSL accepts whose columns are out of the parser's scope (a nested query / a set has a context of its
+    # own): `KeyError` from the origins registry - unless a table is missing, which is reported first
+    Case(_QSET, ((None, (A, B)), (2, (A,)), (2, (B,)))),
+    Case(_QQA, ((None, (A,)), (2, (_QA,))), (), 'single'),
+    Case(('query', ('set', _QA, _QB, 'union'), (), None, (), None, (), None), ((3, (A, B, ('set', _QA, _QB, 'union'))), (3, (_QA, _QB)))),
+    # ... and in scope through a reference; overrides at every level
+    Case(('query', ('join', A, _RQB, 'cross', None), (('elem', A, 'name'), ('elem', _RQB, 'name')), None, (), None, (), None),
+         ((None, (A, B)), (1, (A, _RQB)), (1, (A, B, _QB, ('join', A, _RQB, 'cross', None))), (1, (A, _QB)))),
+    Case(('query', ('ref', ('set', _QA, _QB, 'union'), 'u'), (('elem', ('ref', ('set', _QA, _QB, 'union'), 'u'), 'name'),), None, (), None, (), None),
+         ((None, (A, B, _QA)), (None, (A, B, ('set', _QA, _QB, 'union'))))),
+]
 HISTORIES = [
     # the high-priority feed lacks a table of the first request and covers the later ones
     Case(_QA, ((10, (A,)), (2, (A, B))), (_QB,)),
@@ -421,22 +672,31 @@ class C09(fw.Check):
     DRIVER = 'drv_c09'
     RULE = ('(statement, pool) pairs: statements from the shared typed DSL generator over the 3-table catalog (queries, sets, '
             'joins, references, bare tables; depth 1-2) x pools of 1..3 real io.Feed subclasses (explicit instances = infinite '
-            'priority, or lazily configured setup.Feed descriptors with priorities in halves incl. ties and negatives) whose '
+            'priority, or lazily configured feeds with priorities in halves incl. ties, 0 and negatives) whose '
             'advertised sources are subsets of {tables, references, joins, sub-queries, sets of the statement} + near misses '
-            '(one leaf changed) + unrelated sources; plus request histories: 2..6 match() calls on ONE importer instance over 2..3 distinct statements with repetitions, each request '
-            'a case of its own; a case is distinct by (statement, pool, earlier requests) and non-trivial when a feed '
-            'advertises a non-table or the pool has >= 2 feeds.  Compared with the model: selected index (single-shot, and matchSeq for histories), matcher verdict per '
-            'feed, parser verdict per feed (tuple parser on every case, SQLAlchemy parser on a third).  Oracle = the property text '
-            'on the ASTs read back from the real objects.')
+            '(one leaf changed) + unrelated sources.  The lazily configured feeds are hand-made setup.Feed tuples (2/7 of the cases) or '
+            '[FEED.x] sections of the platform configuration (own priority option absent/int/float, 0-4 generic options, in 60 % a '
+            'params sub-table with 0-7 options drawn from {priority, provider, params, reference, region, qos, weight} - a '
+            'priority in it lies around the priorities of the pool -, the constructor argument on top / in params / both, 3 provider '
+            'references, 2 % malformed: priority a string / a table, params a number / a string, section missing) resolved by '
+            'setup.Feed(ref) each (3/7; 6 % of those members handed over as the bare reference string) or by setup.Feed.resolve([refs]) '
+            '(2/7).  Plus request histories: 2..6 match() calls on ONE importer instance over 2..3 distinct statements with repetitions, each request '
+            'a case of its own; a case is distinct by (statement, pool, sections, route, earlier requests) and non-trivial when a feed '
+            'advertises a non-table or the pool has >= 2 feeds.  Compared with the model: selected index (single-shot, matchSeq for '
+            'histories, the configured-pool model for the config routes), matcher verdict per feed, per feed the parser outcome '
+            '(ok / unprovisioned / other error class) and the source skeleton the tuple parser built against the parser machine, the '
+            'SQLAlchemy parser verdict on a third, per section the descriptor (provider reference, priority, params) and the keyword '
+            'arguments the feed constructor received.  Oracle = the property text on the ASTs read back from the real objects, '
+            'feeds ranked by their configured priority.')
     TRUSTED = [
         'source equality inside frozenset/dict is structural on the generated cases (hash-colliding literals are excluded from '
         'the near misses: C08)',
         'the tuple parser double implements only generate_* (pure wrappers); resolve_source/bypass/visit_* are forml code',
     ]
-    ASSUMPTIONS = ['priorities are finite floats (no NaN); ties are resolved in construction order as documented ("the first feed '
-                   'with the highest priority")',
-                   'setup.Feed descriptors are instantiated through the provider registry (the config-file parsing is not '
-                   'exercised)',
+    ASSUMPTIONS = ['priorities are finite floats, multiples of 0.5 (no NaN); ties are resolved in construction order as documented '
+                   '("the first feed with the highest priority"), after setup.Feed.resolve by the provider reference',
+                   'configuration sections enter as the dicts the TOML parser delivers (put into forml.setup CONFIG for the duration '
+                   'of a case); the file parsing / merging itself is not exercised; numeral strings and booleans are not used as priority',
                    'parser failures other than UnprovisionedError (unsupported constructs, D5) are outside this property and are '
                    'only counted']
 
@@ -526,7 +786,39 @@ class C09(fw.Check):
                 yield from walk(c)
         return list(walk(stmt))
 
-    def _pool(self, stmt, other) -> tuple:
+    TOP_NAMES = ('region', 'qos', 'weight', 'tier')
+    PARAM_NAMES = ('priority', 'provider', 'params', 'reference', 'region', 'qos', 'weight')
+
+    def _value(self, levels, name=None):
+        """an option value: a number (whole or in halves), or a string; for an option called `priority` a number around
+        the priorities of the pool, so that taking it for the pool priority would change the order"""
+        r = self.rng
+        if name == 'priority' or r.random() < 0.3:
+            v2 = r.choice(levels) + r.choice((0, 1, -1, 2, -2, 3, 100, -100))
+            return v2 / 2 if v2 % 2 or r.random() < 0.3 else v2 // 2
+        return r.choice((0, 1, 7, -3, 50, 0.5, 2.5, -1.5, 'eu', 'high', 'x y', '', ALIASES[1]))
+
+    def _conf(self, prio2, levels) -> Conf:
+        """how the section of a lazily configured member is written"""
+        r = self.rng
+        form = r.choice(['float'] + (['int', 'int'] if prio2 % 2 == 0 else []) + (['absent', 'absent', 'absent'] if prio2 == 0 else []))
+        top = tuple((name, self._value(levels)) for name in self.TOP_NAMES if r.random() < 0.2)
+        params = None
+        if r.random() < 0.6:
+            names = [name for name in self.PARAM_NAMES if r.random() < 0.25]
+            if 'priority' not in names and r.random() < 0.5:
+                names.append('priority')
+            r.shuffle(names)
+            params = tuple((name, self._value(levels, name)) for name in names)
+        keyat = 'top' if params is None else r.choice(('top', 'params', 'params', 'both'))
+        broken = r.choice(('priority-text', 'priority-table', 'params-num', 'params-text', 'missing')) if r.random() < 0.02 else None
+        return Conf(form, top, params, keyat, r.choice((0, 0, 1, 2)), r.random() < 0.1, broken,
+                    'reference' if r.random() < 0.06 else 'descriptor')
+
+    def _route(self) -> str:
+        return self.rng.choice(('direct', 'direct', 'single', 'single', 'single', 'multi', 'multi'))
+
+    def _pool(self, stmt, other, route='direct') -> tuple:
         r = self.rng
         n = r.choice((1, 2, 2, 3, 3))
         levels = r.choice(((2, 2, 2), (0, 2, 2), (1, 4, 9), (-4, 0, 5), (3, 3, 40), (-1, -1, -3), (5, 4, 4)))
@@ -537,6 +829,8 @@ class C09(fw.Check):
         if n > 1 and r.random() < 0.3:
             # the same advertised set at different positions / priorities: only the order decides
             pool[r.randrange(n)] = (pool[0][0] if r.random() < 0.5 else r.choice(levels), pool[0][1])
+        if route != 'direct':
+            pool = [m if m[0] is None else m + (self._conf(m[0], levels),) for m in pool]
         return tuple(pool)
 
     def _histories(self, gen) -> list:
@@ -562,7 +856,10 @@ class C09(fw.Check):
                 if r.random() < 0.3:
                     adv = tuple(dict.fromkeys(adv + self._advertised(r.choice(distinct), target)))
                 pool.append((None if r.random() < 0.25 else r.choice(levels), adv))
-            out.append(Case(asked[-1], tuple(pool), tuple(asked[:-1])))
+            route = self._route()
+            if route != 'direct':
+                pool = [m if m[0] is None else m + (self._conf(m[0], levels),) for m in pool]
+            out.append(Case(asked[-1], tuple(pool), tuple(asked[:-1]), route))
         return out
 
     def _cases(self) -> list:
@@ -582,7 +879,8 @@ class C09(fw.Check):
                 if unparseable > 20 * wanted:
                     raise fw.MachineryError('no generated statement gets through the parser of a fully provisioned feed')
                 continue
-            cases.append(Case(stmt, self._pool(stmt, other)))
+            route = self._route()
+            cases.append(Case(stmt, self._pool(stmt, other, route), (), route))
         cases.extend(self._histories(gen))
         self.extra['generated_statements_rejected_by_forml'] = skipped
         self.extra['generated_statements_mostly_dropped_as_unparseable'] = unparseable
@@ -609,12 +907,86 @@ class C09(fw.Check):
         return sexp.dumps(g.with_let(('c09', g.short(obs.statement), pool)))
 
     @staticmethod
+    def _val(v):
+        if isinstance(v, dict):
+            return ('table', tuple((k, C09._val(x)) for k, x in v.items()))
+        if isinstance(v, bool) or not isinstance(v, (int, float, str)):
+            raise fw.MachineryError(f'option value outside the wire format: {v!r}')
+        if isinstance(v, str):
+            return ('text', v)
+        if not float(v * 2).is_integer():
+            raise fw.MachineryError(f'option value outside the wire format: {v!r}')
+        return ('num', int(v * 2))
+
+    @staticmethod
+    def conf_line(obs: Observed, route: str) -> str:
+        """`(c09conf statement members route)`: the sections exactly as they were put into the platform configuration"""
+        members = []
+        for (_, adv), sec, byname in zip(obs.pool, obs.sections, obs.byname):
+            srcs = tuple(g.short(a) for a in sorted(adv, key=repr))
+            if sec is None:
+                members.append(('inst', srcs))
+            else:
+                ref, options = sec
+                members.append(('name' if byname else 'conf', ref, 'none' if options is None else tuple((k, C09._val(v)) for k, v in options.items()), srcs))
+        return sexp.dumps(g.with_let(('c09conf', g.short(obs.statement), tuple(members), route)))
+
+    @staticmethod
+    def _unval(x):
+        if x[0] == 'num':
+            h = int(x[1])
+            return h / 2 if h % 2 else h // 2
+        if x[0] == 'text':
+            return x[1]
+        return {k: C09._unval(v) for k, v in x[1]}
+
+    @staticmethod
+    def parse_conf_answer(ans: str):
+        """(selection: index | None | ('pool-error', class), per member: None | (provider, priority2, params) | ('error', class))"""
+        m = sexp.loads(ans)
+        if not isinstance(m, list) or m[0] != 'ok':
+            return None
+        sel = (None if m[1] == 'none' else ('pool-error', m[1][1]) if m[1][0] == 'err' else ('error', m[1][1]) if m[1][0] == 'raise'
+               else int(m[1][1]))
+        reports = []
+        for r in m[2]:
+            if r == 'inst':
+                reports.append(None)
+            elif r[0] == 'err':
+                reports.append(('error', r[1]))
+            else:
+                reports.append((r[1], int(r[2]), {k: C09._unval(v) for k, v in r[3]}))
+        return sel, reports
+
+    @staticmethod
     def parse_answer(ans: str):
         m = sexp.loads(ans)
         if not isinstance(m, list) or m[0] != 'ok':
             return None
         sel = None if m[1] == 'none' else int(m[1][1])
-        return sel, [x == 'true' for x in m[2]], [x == 'true' for x in m[3]]
+        return sel, [x == 'true' for x in m[2]], [x == 'true' for x in m[3]], m[4]
+
+    @staticmethod
+    def machine_verdict(r) -> str:
+        """the parser machine's answer in the vocabulary of `Observed.parses`"""
+        if r[0] == 'ok':
+            return 'ok'
+        return 'unprovisioned' if r[1] == 'unprovisioned' else 'other:' + r[1]
+
+    @staticmethod
+    def machine_skeleton(term, advertised: list):
+        """the machine's term with its natives looked up in the advertised list the line carried"""
+        tag = term[0]
+        if tag == 'native':
+            k = int(term[1])
+            return ('native', advertised[k] if k < len(advertised) else None)
+        if tag == 'ref':
+            return ('ref', C09.machine_skeleton(term[1], advertised), term[2])
+        if tag in ('join', 'set'):
+            return (tag, C09.machine_skeleton(term[1], advertised), C09.machine_skeleton(term[2], advertised), term[3])
+        if tag == 'query':
+            return ('query', C09.machine_skeleton(term[1], advertised))
+        return ('?', term)
 
     @staticmethod
     def _shape(obs: Observed) -> str:
@@ -626,23 +998,34 @@ class C09(fw.Check):
             res = 'error'
         else:
             res = 'selected/' + obs.parses[obs.selected].split(':')[0]
-        return f'feeds={n} advertised={nont} -> {res}'
+        conf = ''
+        if any(sec is not None for sec in obs.sections):
+            flags = [w for w, hit in (('params', any(sec[1] and 'params' in sec[1] for sec in obs.sections if sec)),
+                                      ('priority-in-params', any(sec[1] and isinstance(sec[1].get('params'), dict) and 'priority' in sec[1]['params']
+                                                                 for sec in obs.sections if sec)),
+                                      ('malformed', not obs.wellformed)) if hit]
+            conf = ' configured' + (('[' + ','.join(flags) + ']') if flags else '')
+        if isinstance(obs.selected, tuple) and obs.selected[0] == 'pool-error':
+            return f'feeds={n}{conf} -> no pool ({obs.selected[1]})'
+        return f'feeds={n}{conf} advertised={nont} -> {res}'
 
     def _check(self, cases: list, tag: str = '') -> None:
         """Every request of every case (a case with `before` is a request history answered by ONE importer instance) is
         compared with the single-shot model and judged by the oracle; a history is also compared with `matchSeq`."""
         entries, first, seqs = [], {}, []  # entries: (case of that request, observed, case index)
         for idx, case in enumerate(cases):
-            run = observe_all(case, sql=False, split_builders=idx % 2 == 1, via_config=idx % 4 >= 2)
+            run = observe_all(case, sql=False, split_builders=idx % 2 == 1)
             asked = case.before + (case.statement,)
             for j, obs in enumerate(run):
-                entries.append((Case(asked[j], case.pool, asked[:j]), obs, idx))
-            if case.before:
-                seqs.append((case, run))
+                entries.append((Case(asked[j], case.pool, asked[:j], case.route), obs, idx))
+            if case.before and case.route != 'multi' and not (isinstance(run[0].selected, tuple) and run[0].selected[0] == 'pool-error'):
+                seqs.append((case, run))  # (multi: every request is compared by _compare_configured)
         lines = [self.line(o) for _, o, _ in entries]
         for case, run in seqs:
             pool = tuple(('inf' if p is None else p, tuple(g.short(a) for a in sorted(adv, key=repr))) for p, adv in run[0].pool)
             lines.append(sexp.dumps(g.with_let(('c09seq', tuple(g.short(o.statement) for o in run), pool))))
+        configured = [k for k, (case, _, _) in enumerate(entries) if case.route != 'direct']
+        lines += [self.conf_line(entries[k][1], entries[k][0].route) for k in configured]
         answers = self.model(lines)
         for (case, run), ans in zip(seqs, answers[len(entries):]):
             m = sexp.loads(ans)
@@ -650,13 +1033,16 @@ class C09(fw.Check):
             want = None if not isinstance(m, list) or m[0] != 'ok' else [None if x == 'none' else int(x[1]) for x in m[1]]
             if got != want:
                 self.diverge('answers of one importer instance to a request history', case_json(case), got, want)
+        for k, ans in zip(configured, answers[len(entries) + len(seqs):]):
+            self._compare_configured(entries[k][0], entries[k][1], ans)
         sql_done = set()
         for (case, obs, idx), ans in zip(entries, answers):
             nontrivial = len(obs.pool) > 1 or any(a[0] != 'table' for _, adv in obs.pool for a in adv)
             hist = f'history[{len(cases[idx].before) + 1}] ' if cases[idx].before else ''
-            self.case((obs.statement, obs.pool, case.before), tag + hist + self._shape(obs), nontrivial,
+            self.case((obs.statement, obs.pool, case.before, case.route, obs.sections), tag + hist + self._shape(obs), nontrivial,
                       sample={'statement': sexp.dumps(g.short(obs.statement))[:300],
                               'pool': [[p, [sexp.dumps(g.short(a))[:120] for a in adv]] for p, adv in obs.pool],
+                              'sections': [None if sec is None else list(sec) for sec in obs.sections], 'route': case.route,
                               'selected': obs.selected, 'parses': obs.parses, 'earlier_requests': obs.earlier})
             for p in obs.parses:
                 if p.startswith('other:'):
@@ -667,14 +1053,25 @@ class C09(fw.Check):
             if m is None:
                 self.diverge('model rejected the case', witness, None, ans)
                 continue
-            msel, mcov, mres = m
-            if obs.selected != msel:
-                self.diverge('Importer.match selection', witness, obs.selected, msel)
-            if list(obs.covers) != mcov:
-                self.diverge('matcher verdict per feed', witness, list(obs.covers), mcov)
-            for i, (p, r) in enumerate(zip(obs.parses, mres)):
-                if not p.startswith('other:') and (p == 'ok') != r:
-                    self.diverge(f'parser verdict of feed {i}', witness, p, r)
+            msel, mcov, mres, mfull = m
+            pool_error = isinstance(obs.selected, tuple) and obs.selected[0] == 'pool-error'
+            if not pool_error:
+                if case.route != 'multi' and obs.selected != msel:  # multi: `setup.Feed.resolve` re-orders, see _compare_configured
+                    self.diverge('Importer.match selection', witness, obs.selected, msel)
+                if list(obs.covers) != mcov:
+                    self.diverge('matcher verdict per feed', witness, list(obs.covers), mcov)
+                for i, (p, r) in enumerate(zip(obs.parses, mres)):
+                    if not p.startswith('other:') and (p == 'ok') != r:
+                        self.diverge(f'parser verdict of feed {i}', witness, p, r)
+                # the parser machine (contexts, symbol stack, origins registry, bypass): verdict and what it built
+                for i, (p, r) in enumerate(zip(obs.parses, mfull)):
+                    if p != self.machine_verdict(r):
+                        self.diverge(f'parser of feed {i}: outcome', witness, p, self.machine_verdict(r))
+                    elif p == 'ok' and obs.skeletons[i] is not None:
+                        want = self.machine_skeleton(r[1], sorted(obs.pool[i][1], key=repr))
+                        if obs.skeletons[i] != want:
+                            self.diverge(f'parser of feed {i}: sources it resolved the statement to', witness,
+                                         listify(obs.skeletons[i]), listify(want))
             for what, sig in oracle(obs):
                 first.setdefault(sig, (what, case))
             if idx % 3 == 0 and idx not in sql_done:
@@ -685,7 +1082,7 @@ class C09(fw.Check):
                     self.case(('sql', sq.statement, sq.pool, full.before), tag + 'alchemy ' + self._shape(sq), nontrivial)
                     for what, sig in oracle(sq):
                         first.setdefault(sig, (what + ' (SQLAlchemy parser)', full))
-                    if not full.before:
+                    if not full.before and not pool_error:
                         if sq.selected != obs.selected or sq.covers != obs.covers:
                             self.diverge('selection differs between two feed classes with the same sources', witness,
                                          [sq.selected, sq.covers], [obs.selected, obs.covers])
@@ -697,6 +1094,34 @@ class C09(fw.Check):
             small = self._shrink(case, sig)
             whats = [w for w, s in self._violations_of(small) if s == sig]
             self.violate(whats[0] if whats else what, case_json(small), sig)
+
+    def _compare_configured(self, case: Case, obs: Observed, ans: str) -> None:
+        """pools built from the configuration against `(c09conf ...)`: the descriptor of every section (provider reference,
+        priority, params), what the feed constructor received, whether a pool could be built at all, the selection"""
+        witness = case_json(case)
+        m = self.parse_conf_answer(ans)
+        if m is None:
+            self.diverge('model rejected the configured pool', witness, None, ans)
+            return
+        msel, reports = m
+        if obs.selected != msel:
+            self.diverge(f'selection from the pool built by {witness["descriptors_resolved_by"]}', witness, obs.selected, msel)
+        if obs.earlier:
+            return
+        for i, (real, want, kwargs, sec) in enumerate(zip(obs.descriptors, reports, obs.kwargs, obs.sections)):
+            if sec is None:
+                continue
+            if real != want:
+                if isinstance(real, tuple) and isinstance(want, tuple) and len(real) == 3 and len(want) == 3:
+                    for name, a, b in zip(('provider reference', 'priority (in halves)', 'params'), real, want):
+                        if a != b:
+                            self.diverge(f'setup.Feed descriptor of feed {i}: {name}', witness, a, b)
+                else:
+                    self.diverge(f'setup.Feed descriptor of feed {i}', witness, real, want)
+            if isinstance(kwargs, dict) and len(want) == 3 and kwargs != want[2]:
+                self.diverge(f'keyword arguments the constructor of feed {i} received', witness, kwargs, want[2])
+            if isinstance(kwargs, dict) and sec[1] is not None and obs.wellformed and kwargs != expected_kwargs(sec[1]):
+                self.extra.setdefault('constructor_kwargs_differ_from_the_documented_reading', []).append(witness)
 
     def correspondence(self) -> None:
         cases = self._cases()
@@ -712,7 +1137,21 @@ class C09(fw.Check):
         m = self.parse_answer(self.model([self.line(wrong)])[0])
         if m is None or m[0] == obs.selected:
             raise fw.MachineryError('planted divergence (negated priorities) was not noticed by the correspondence')
-        self.notes.append('planted-divergence self-test passed (negated priorities are noticed)')
+        # a section whose own priority is replaced by the `priority` of its params sub-table must change the model's answer
+        conf = Case(_QJ, ((2, _AB, Conf('int', (), (('priority', 100),), 'params')), (20, _AB, PLAIN)), (), 'single')
+        obs = observe(conf)
+        stolen = tuple(sec if i else (sec[0], {**sec[1], 'priority': sec[1]['params']['priority']})
+                       for i, sec in enumerate(obs.sections))
+        m = self.parse_conf_answer(self.model([self.conf_line(obs._replace(sections=stolen), 'single')])[0])
+        if m is None or m[0] == obs.selected or obs.selected != 1:
+            raise fw.MachineryError('planted divergence (params priority taken for the pool priority) was not noticed')
+        # a parser machine that is not given a table the real parser was given must come out differently
+        full = observe(Case(_QJ, ((None, _AB),)))
+        lacking = full._replace(pool=((None, frozenset((A,))),))
+        m = self.parse_answer(self.model([self.line(lacking)])[0])
+        if m is None or self.machine_verdict(m[3][0]) == full.parses[0] or full.parses[0] != 'ok':
+            raise fw.MachineryError('planted divergence (a table withheld from the parser machine) was not noticed')
+        self.notes.append('planted-divergence self-tests passed (negated priorities, a stolen priority, a withheld table are noticed)')
 
     # ---- failing-input search ----------------------------------------------------------------------
     def _violations_of(self, case: Case) -> list:
@@ -758,14 +1197,37 @@ class C09(fw.Check):
                     if fails(cand):
                         case, changed = cand, True
                         break
-                prio, adv = case.pool[i]
+                prio, adv, *rest = case.pool[i]
                 for j in range(len(adv)):
-                    cand = case._replace(pool=case.pool[:i] + ((prio, adv[:j] + adv[j + 1:]),) + case.pool[i + 1:])
+                    cand = case._replace(pool=case.pool[:i] + ((prio, adv[:j] + adv[j + 1:], *rest),) + case.pool[i + 1:])
                     if fails(cand):
                         case, changed = cand, True
                         break
                 if changed:
                     break
+                # a simpler section: no special way of writing it, fewer options
+                conf = member(case.pool[i])[2]
+                simpler = []
+                if case.route != 'direct' and prio is not None and conf != PLAIN:
+                    simpler.append(PLAIN)
+                    if conf.params:
+                        simpler += [conf._replace(params=conf.params[:j] + conf.params[j + 1:]) for j in range(len(conf.params))]
+                    simpler += [conf._replace(top=conf.top[:j] + conf.top[j + 1:]) for j in range(len(conf.top))]
+                    simpler += [conf._replace(**{f: getattr(PLAIN, f)}) for f in ('keyat', 'provider', 'named', 'form', 'given')
+                                if getattr(conf, f) != getattr(PLAIN, f) and not (f == 'form' and prio % 2)
+                                and not (f == 'keyat' and conf.params is None)]
+                for c in simpler:
+                    cand = case._replace(pool=case.pool[:i] + ((prio, adv, c),) + case.pool[i + 1:])
+                    if fails(cand):
+                        case, changed = cand, True
+                        break
+                if changed:
+                    break
+            if not changed and case.route != 'direct':
+                for route in ('direct', 'single'):
+                    if route != case.route and fails(case._replace(route=route)):
+                        case, changed = case._replace(route=route), True
+                        break
         return case
 
     def search(self, reason: str) -> None:
@@ -787,11 +1249,27 @@ class C09(fw.Check):
             for k in range(len(subs) + 1):
                 for combo in itertools.combinations(subs, k):
                     cands.append(Case(seed.statement, ((None, combo),)))
-            advs = [adv for _, adv in seed.pool] or [tuple(tables_of(seed.statement))]
+            advs = [m[1] for m in seed.pool] or [tuple(tables_of(seed.statement))]
             for perm in itertools.permutations(advs):
                 for prios in itertools.product((None, 2, 6), repeat=len(perm)):
                     cands.append(Case(seed.statement, tuple(zip(prios, perm))))
-            for cand in cands[:400]:
+            cands = cands[:400]
+            if seed.route != 'direct':
+                # a pool built from the configuration: every section of the seed against a plainly configured rival that
+                # covers too, at every priority level around the numbers the section mentions
+                everything = tuple(tables_of(seed.statement))
+                for prio, _, conf in (member(m) for m in seed.pool):
+                    if prio is None:
+                        continue
+                    numbers = [prio] + [int(v * 2) for _, v in (conf.params or ()) + conf.top
+                                        if isinstance(v, (int, float)) and float(v * 2).is_integer()]
+                    levels = sorted({n + d for n in numbers for d in (-1, 1)})
+                    for rival in levels:
+                        for route in ('single', 'multi'):
+                            for pool in (((prio, everything, conf), (rival, everything, PLAIN)),
+                                         ((rival, everything, PLAIN), (prio, everything, conf))):
+                                cands.append(Case(seed.statement, pool, (), route))
+            for cand in cands[:700]:
                 tried += 1
                 for what, sig in self._violations_of(cand):
                     if sig not in found:
